@@ -444,6 +444,15 @@ theorem gen_rejects_option_tag {ε α : Type} (t : Ty) (T_decode : List Nat → 
     | cons y ys =>
       exact item_rejects (option_item t T_decode into toVal h) (x :: y :: ys) hw .tooLong
         (by rw [vals_cons, vals_cons, h0]; exact rejects_none_with_payload t _ _)
+/-- **transfer of `rejects_poly_trailing_zero`**: whatever the regenerated `Polynomial` decoder accepts has a non-zero last
+    coefficient (also when there is exactly one coefficient) -/
+theorem gen_rejects_poly_trailing_zero {ε α : Type} (t : Ty) (T_decode : List Nat → Res ε α) (into : ε → DynErr) (isz : α → Bool)
+    (toVal : α → Val) (h : Item T_decode toVal (decode t)) (hz : ∀ a, isz a = valIsZero (toVal a)) (r : List Nat)
+    (hw : Words r) (l : List α) (hg : Loops.codec_poly_decode (staticLength t) T_decode into isz r = .ok l) :
+    lastIsZero (l.map toVal) = false := by
+  have := item_ok (poly_item t T_decode into isz toVal h hz) r hw l hg
+  obtain ⟨cs, hcs, hl⟩ := rejects_poly_trailing_zero t _ _ this
+  cases hcs; exact hl
 example : (Loops.codec_decode_list_static (some 0) (fun _ => (Res.ok () : Res String Unit)) (fun _ => ⟨""⟩) 3 []).noPanic = false :=
   gen_zero_width_vec_panics _ _ 3
 
